@@ -92,6 +92,39 @@ func e2eWorkerMain() {
 			// (query.initSyncSegMetaForAllIds) has finished; prints {"sync":"done"|"timeout"}
 			fmt.Fprintf(out, "{\"sync\":%q}\n", waitSync(syncDone))
 			out.Flush()
+		case "bulk":
+			// bulk <hex body>: the real Elasticsearch bulk entry point; prints {"items":[status…],"errors":bool}
+			hx := ""
+			if len(f) > 1 {
+				hx = f[1]
+			}
+			body, err := hex.DecodeString(hx)
+			if err != nil {
+				fmt.Fprintln(os.Stderr, "bad hex")
+				os.Exit(4)
+			}
+			_, resp, _ := eswriter.HandleBulkBody(body, nil, 0, 0, false)
+			var sts []int
+			if items, ok := resp["items"].([]interface{}); ok {
+				for _, it := range items {
+					m, _ := it.(map[string]interface{})
+					st := 0
+					if ix, ok := m["index"].(map[string]interface{}); ok {
+						if v, ok := ix["status"].(int); ok {
+							st = v
+						}
+					}
+					if v, ok := m["status"].(int); ok {
+						st = v
+					}
+					sts = append(sts, st)
+				}
+			}
+			eflag, _ := resp["errors"].(bool)
+			b, _ := json.Marshal(map[string]interface{}{"bulk": true, "items": sts, "errors": eflag})
+			out.Write(b)
+			out.WriteByte('\n')
+			out.Flush()
 		case "q":
 			from, _ := strconv.Atoi(f[1])
 			size, _ := strconv.Atoi(f[2])
